@@ -91,5 +91,7 @@ W_ObsRangeMasks == ~("obsrange" \in O.given /\ ctx.n >= 2 /\ \E c \in ctx.G : Is
 W_RelativelyClose == ~(\E a, b \in Elems(ctx.T) : a # b /\ Abs(a - b) <= 3600)
 W_ExtraFieldMissing == ~(ctx.n >= 2 /\ \E c \in ctx.G : "q0.01" \in FieldsOf(D) /\ IsNaN(ctx.adj[1, "q0.01", c]) /\ ~IsNaN(ctx.adj[1, "obs", c]))
 W_EnsembleUnderT == ~(Family = "C15Ens" /\ "T" \in O.given /\ ctx.n = 2)
+\* (C11Two) a run common to both files sits at different positions in them
+W_CommonRunAtDifferentPositions == ~(Len(D.inputs) >= 2 /\ \E t \in Elems(ctx.T) : IndexIn(D.inputs[1].times, t) # IndexIn(D.inputs[2].times, t))
 W_SelectionRemovesTimes == ~(O.given \cap {"d", "tod"} # {} /\ ctx.n > 0 /\ Len(ctx.T) < Len(Context(D, NoOptions).T) /\ Len(ctx.T) >= 2)
 =============================================================================
